@@ -54,6 +54,21 @@ CHECKS = {
     "C18": ("static+reply", "6 C18", "one rule-breaking edit per documented rule on valid hosts and every reply table of <= MaxM methods "
             "expanded in-process; accept/reject verdict judged by TLC against Static.tla / Reply!ValidTable",
             "TLA+ spec + TLC (exhaustive small reply tables), in-process expansion, trace validation"),
+    "C10": ("routing", "6 C10", "RemoteSend (helper builds the message, the chain delivers it) model-checked with invariant C10_RemoteRoutesBack; executor, "
+            "querier, instantiate-builder and admin helpers of every exec/query method of the corpus recorded (RemoteMsg) and their bodies delivered to "
+            "the target's real entry points; TLC judges address, funds, kind, body and the flight",
+            "TLA+ spec + TLC, compiled corpus, trace validation of RemoteMsg events and the flights they cause"),
+    "C11": ("bridge", "6 C11", "Bridge.tla model-checked over all responses with <= MaxMsgs sub-messages x kinds x profiles x attributes x events x data; "
+            "every one replayed into the real IntoResponse and (every third) through a custom-typed contract's entry points; TLC judges verdict, "
+            "field-wise identity and the context the bridged handler saw",
+            "TLA+ spec + TLC (exhaustive small scope), replay of TLC-enumerated responses, trace validation"),
+    "C19": ("hygiene", "6 C19", "the behavioural specifications are name-free, so C19 is: every configuration builds and its traces are accepted unchanged; "
+            "generic contract / interface with associated type under every single-letter and plain-word parameter name; routing and reply corpora "
+            "rebuilt with the framework imported only under another crate name",
+            "TLA+ spec + TLC enumeration of configurations; rustc name resolution + unchanged trace specifications as the oracle"),
+    "C20": ("remote", "6 C20", "RemoteHandle.tla (encode/decode of [ty, owned, addr]) model-checked; every (type parameter, owned/borrowed, address) case "
+            "replayed into the real Remote<T>; encoding, decoding of the prescribed literal and schema judged by TLC",
+            "TLA+ spec + TLC (exhaustive small scope), replay into the real type, trace validation"),
 }
 
 
@@ -99,6 +114,12 @@ def main():
             {"name": "reply", "path": "spec/Reply.tla, spec/ReplyRT.tla, spec/MC_Reply.tla, spec/Trace_Reply.tla, spec/Trace_Tables.tla, harness/gen/replies.py, harness/rrt/src/reply.rs",
              "serves_properties": ["C07", "C08", "C09", "C14", "C18"],
              "kind_free_text": "TLC bounded reply machine + compiled reply corpus + in-process expansion of all small tables + TLC trace validation"},
+            {"name": "bridge", "path": "spec/Bridge.tla, spec/MC_Bridge.tla, spec/Trace_Bridge.tla, harness/bridge", "serves_properties": ["C11"],
+             "kind_free_text": "TLC exhaustive small scope + replay into IntoResponse and a custom-typed contract"},
+            {"name": "remote", "path": "spec/RemoteHandle.tla, spec/MC_Remote.tla, spec/Trace_Remote.tla, harness/remote", "serves_properties": ["C20"],
+             "kind_free_text": "TLC exhaustive small scope + replay into Remote<T>"},
+            {"name": "hygiene", "path": "spec/Hygiene.tla, spec/Trace_Hygiene.tla, harness/gen/hygiene.py, harness/driver/checks/c19.py", "serves_properties": ["C19"],
+             "kind_free_text": "parameter-name family + corpora rebuilt under a renamed dependency, validated by the unchanged trace specifications"},
             {"name": "merge", "path": "spec/Merge.tla, spec/MC_Merge.tla, spec/Trace_Merge.tla, harness/merge",
              "serves_properties": ["C05"], "kind_free_text": "TLC exhaustive small scope + replay into the real function"},
         ],
